@@ -3,12 +3,13 @@ import Nv.Model.C16
 import Nv.Gen.C16
 /-!
 oracle_c16 — line protocol (one world per script; the first line (re)initialises it):
-  `init <max> <mode>`                 → `ok`      modes: pipe | rt | wt | tcp | pub | publ | pubx | echo
+  `init <max> <mode>`                 → `ok`      modes: pipe | rt | wt | tcp | pub | publ | pubx | echo | plog | wlog (pipe with a user-made default logger / WithLogger)
   `conn`                              → `r=acc<k>` | `r=rej` | `r=lost` (accept loop has stopped), then the world
   `burst <n>` (1..8 attempts back to back) → `r=acc<a>,rej<r>[,lost<l>]`, then the world
   `send <k> <hex|->`                  → `r=ok` | `r=closed`, then the world
   `close|pclose|drain|hold|pdata|rerr|rto|herr|rdl|hpanic|hpanicnil|werr|wto|wdl|start|cerr|uh|xpanic|xblock <k>` → `r=ok`, then the world
   `wpart|wtemp <k> <n>` (partial write of n bytes, then timeout | temporary error) → `r=ok`, then the world
+  `setv <k> str|kz|nilkz` (Session.Set) → `r=ok`; `soak <n>` (n surplus connections in a row, server full) → `r=rej<n>`, then the world
   `aerr` (temporary Accept error) | `afail` (permanent Accept error) → `r=run` | `r=stop`, then the world
   `stress <kind> <seed>`              → `r=done`, then the world (the scenario is judged by the monitors only)
 World: ` n=<ConnCount> rej=<closed on accept> / <k>:x<OnExit calls>,c<conn.Close calls>,l<live loops>,d=<hex read by peer>,rd=<handler reads>`
@@ -19,7 +20,7 @@ The accept loop runs with acceptMaxRetry = 3. The configuration is the one regen
 -/
 open Nv Nv.C16
 
-inductive Mode | pipe | rt | wt | tcp | pub | publ | pubx | echo
+inductive Mode | pipe | rt | wt | tcp | pub | publ | pubx | echo | plog | wlog
 deriving DecidableEq
 
 structure OState where
@@ -103,7 +104,8 @@ def step (st : OState) (line : String) : OState × String :=
     match m.toInt?, (if mode == "pipe" then some Mode.pipe else if mode == "rt" then some Mode.rt
         else if mode == "wt" then some Mode.wt else if mode == "tcp" then some Mode.tcp
         else if mode == "pub" then some Mode.pub else if mode == "publ" then some Mode.publ
-        else if mode == "pubx" then some Mode.pubx else if mode == "echo" then some Mode.echo else none) with
+        else if mode == "pubx" then some Mode.pubx else if mode == "echo" then some Mode.echo
+        else if mode == "plog" then some Mode.plog else if mode == "wlog" then some Mode.wlog else none) with
     | some m, some mode => ({ live := true, mode := mode, w := { max := m } }, "ok")
     | _, _ => (st, "bad-op")
   | op :: args =>
@@ -126,13 +128,22 @@ def step (st : OState) (line : String) : OState × String :=
         let w' := (List.range n).foldl (fun w _ => (wstep cfg w .connect).getD w) st.w
         finishLine { st with aerrs := 0 } w' s!"acc{w'.sess.length - st.w.sess.length},rej{w'.rejected - st.w.rejected}"
     | "aerr", [] =>
-      if st.mode ≠ .pipe ∧ st.mode ≠ .echo then (st, "bad-op") else
+      if st.mode ≠ .pipe ∧ st.mode ≠ .echo ∧ st.mode ≠ .plog ∧ st.mode ≠ .wlog then (st, "bad-op") else
       if !st.accepting then finishLine st st.w "stop" else
       if st.aerrs + 1 ≥ 3 then finishLine { st with accepting := false } st.w "stop"
       else finishLine { st with aerrs := st.aerrs + 1 } st.w "run"
     | "afail", [] =>
-      if st.mode ≠ .pipe ∧ st.mode ≠ .echo then (st, "bad-op") else
+      if st.mode ≠ .pipe ∧ st.mode ≠ .echo ∧ st.mode ≠ .plog ∧ st.mode ≠ .wlog then (st, "bad-op") else
       finishLine { st with accepting := false } st.w "stop"
+    | "soak", [n] =>
+      -- n surplus connections in a row on a full server: all closed on accept
+      match n.toNat? with
+      | none => (st, "bad-op")
+      | some n =>
+        if n = 0 ∨ n > 200000 ∨ st.mode = .tcp ∨ st.mode = .pub ∨ st.mode = .publ ∨ st.mode = .pubx then (st, "bad-op") else
+        if st.w.max ≥ 0 ∧ st.w.count < st.w.max then (st, "bad-op") else
+        if !st.accepting then finishLine st st.w "lost" else
+        finishLine { st with aerrs := 0 } { st.w with rejected := st.w.rejected + n } s!"rej{n}"
     | "stress", [_, seed] =>
       match seed.toNat? with
       | some _ => finishLine st st.w "done"
@@ -167,6 +178,8 @@ def step (st : OState) (line : String) : OState × String :=
       | none => (st, "bad-op")
     | "start", [k] => onSess st k (envs [])
     | "cerr", [k] => onSess st k (envs [])   -- conn.Close() will report an error: logged only
+    | "setv", [k, v] =>   -- Session.Set(value): no influence on the session's life
+      if st.mode = .echo ∨ (v ≠ "str" ∧ v ≠ "kz" ∧ v ≠ "nilkz") then (st, "bad-op") else onSess st k (envs [])
     | "uh", [k] => onSess st k (envs [])     -- UpdateHandler(another handler with the same behaviour)
     | "xpanic", [k] => onSess st k fun s => ({ s with onExit := .panics }, "ok")   -- the handler's OnExit will panic
     | "xblock", [k] => onSess st k fun s => ({ s with onExit := .blocks }, "ok")   -- … will never return
